@@ -76,7 +76,7 @@ def load_path(schema, path):
 
 
 ENTRY_WAYS = ["rel-here", "rel-up", "rel-deep", "url", "fobj", "fobj-rel",
-              "validator-rel", "validator-up"]
+              "validator-rel", "validator-up", "fobj-bytes", "fobj-bytes-rel"]
 
 
 def load_variant(ctx, schema, main, dirpath, how, xml):
@@ -93,7 +93,7 @@ def load_variant(ctx, schema, main, dirpath, how, xml):
     old = os.getcwd()
     here = os.path.dirname(main)
     try:
-        if how in ("rel-here", "fobj-rel", "validator-rel"):
+        if how in ("rel-here", "fobj-rel", "validator-rel", "fobj-bytes-rel"):
             os.chdir(here)
             arg = os.path.basename(main)
         elif how in ("rel-up", "validator-up"):
@@ -125,7 +125,12 @@ def load_variant(ctx, schema, main, dirpath, how, xml):
             return ("status", rc, err.getvalue()[:200])
         try:
             if how.startswith("fobj"):
-                with open(arg, encoding="utf-8", newline="\n") as f:
+                # ("bytes": the file was opened by a bytes path, so its
+                # name is bytes; the working directory is elsewhere)
+                if how == "fobj-bytes":
+                    os.chdir("/")
+                with open(os.fsencode(arg) if "bytes" in how else arg,
+                          encoding="utf-8", newline="\n") as f:
                     config, handler = ZConfig.loadConfigFile(schema, f)
             else:
                 config, handler = ZConfig.loadConfig(schema, arg)
